@@ -141,13 +141,13 @@ Proof. intros (_ & _ & [(-> & _)|(_ & -> & Hl & _)]) Hne; [congruence|auto]. Qed
 
 Theorem step_frame_HA w o out w' : winv w -> cl_step cmp pred w HA o = Ok (out, w') -> frame_ok w w' out.
 Proof.
-  intros [Hk Hm (la & lb & R1 & R2 & HP)] E. destruct w as [s1 s2 a]. cbn [wa wb wal] in *.
+  intros [Hk (la & lb & R1 & R2 & HP)] E. destruct w as [s1 s2 a]. cbn [wa wb wal] in *.
   assert (Hown : lown a s1 la (blocks s2 lb)) by (split; assumption).
   destruct o; cbn [cl_step wget wother wset wset2 wa wb wal] in E.
   (* the bulk copies need the invariant (cleanup of the external chain) *)
   23:{ destruct lb as [|q tb].
        - rewrite (add_all_empty_src _ _ _ R2) in E. cbn [bind] in E. inversion E; subst. intros H; congruence.
-       - destruct (add_all_spec s1 la s2 (q :: tb) a _ R1 R2 Hown Hm ltac:(discriminate)) as (st & s1' & a' & E1 & Hb).
+       - destruct (add_all_spec s1 la s2 (q :: tb) a _ R1 R2 Hown ltac:(discriminate)) as (st & s1' & a' & E1 & Hb).
          rewrite E1 in E. cbn [bind] in E. inversion E; subst. intros Hne. destruct (bulk_frame _ _ _ _ _ _ _ _ _ Hb Hne) as [-> Hl]. auto. }
   23:{ destruct lb as [|q tb].
        - rewrite (add_all_at_empty_src _ _ _ _ R2) in E. cbn [bind] in E. inversion E; subst. intros H; congruence.
@@ -157,7 +157,7 @@ Proof.
            { destruct (N.eq_dec i (lenN la)) as [->|Hne]; [exists la, []; rewrite app_nil_r; auto|].
              destruct (split_at la i ltac:(lia)) as (l1 & x & l2 & -> & <-). exists l1, (x :: l2). auto. }
            destruct Hsp as (A & B & -> & <-).
-           destruct (add_all_at_spec s1 A B s2 (q :: tb) a _ R1 R2 Hown Hm ltac:(discriminate)) as (st & s1' & a' & E1 & Hb).
+           destruct (add_all_at_spec s1 A B s2 (q :: tb) a _ R1 R2 Hown ltac:(discriminate)) as (st & s1' & a' & E1 & Hb).
            rewrite E1 in E. cbn [bind] in E. inversion E; subst. intros Hne. destruct (bulk_frame _ _ _ _ _ _ _ _ _ Hb Hne) as [-> Hl]. auto. }
   (* everything else: by inspection of the code, every non-OK return hands back the unchanged list *)
   all: unfold cl_add, cl_add_first, cl_add_last, cl_add_at, cl_remove, cl_remove_at, cl_remove_first, cl_remove_last,
